@@ -240,6 +240,13 @@ CLAIMS["C12"]["text"] += " Witness rows are stacks: the fields of a re-assembled
 CLAIMS["C01"]["text"] += " A value taken out of an always-occupied slot (array element, variant payload) is dropped when its static type is void (VOID-SLOT); the epilogue is chosen from the result type of the compiled instance, and the return context is pushed exactly for the body kinds that end in Return (EPILOGUE)."
 CLAIMS["C02"]["text"] += " Void placeholders never stay on the operand stack under later operands (VOID-SLOT); every sibling body of a construct (match arm) is resolved in a scope of its own, so a use resolves to the innermost visible declaration (SCOPE)."
 CLAIMS["C21"]["text"] += " Sibling bodies (match arms) get one scope each (SCOPE)."
+CLAIMS["C13"]["text"] += " Nothing returns between the analysis of the matrix and the reading of the useful flags, so both reports are made for one match (REPORT-BOTH); generic payload types are instantiated (GENERIC-INST)."
+CLAIMS["C09"]["text"] += " Every part of a queued message is owned: no weak or borrowed handle in the closure of the element type (CH-OWN)."
+CLAIMS["C14"]["text"] += " Slot decisions (void tests) use the type of the instance being compiled, never the generic solution (MONO-VOID)."
+CLAIMS["C10"]["text"] += " No continue/break jumps over the hand-back of the popped thread (SLICE-INVARIANT)."
+CLAIMS["C11"]["text"] += " The error kind raised by each integer arm is the documented one on every ordering case (OP-ERR)."
+for _c in ("C04", "C34"):
+    CLAIMS[_c]["text"] += " A range-tested subscript is tested against the length of the table it indexes (INDEX-OWN-BOUND)."
 NOT_APPLICABLE["C33"] = "unit inference (char index vs byte offset vs token index) over lexer/parser/diagnostics needs the type-resolved MIR engine with per-field def-use; that engine was not completed in the time available, and no sound syntactic proxy was found (a name-based one would alarm on behaviour-preserving edits)"
 
 for _p in []:
